@@ -39,7 +39,9 @@ class FieldScalarModel(FieldModel):
         self.mask = (1 << width)-1
         self.is_signed = is_signed
         self.is_declared_rand = is_rand
-        self.is_used_rand = is_rand
+        # A field is only used as random for the duration of 
+        # a randomize call in which it participates
+        self.is_used_rand = False
         self.rand_mode = is_rand
         self.rand_if = rand_if
         self.var = None
